@@ -1112,8 +1112,39 @@ fn parent_main(prop: &Property, args: &Args, root: &Path, known: &[KnownEntry], 
         }
     }
 
+    // ---------------- counter-examples handed over by a coverage-guided campaign (thorough tier):
+    // each is re-evaluated here through the plain replay path, so this binary stays the only reporter
+    let mut extra_violations: Vec<PathBuf> = vec![];
+    if let Ok(list) = std::env::var("VERIF_EXTRA_REPLAYS") {
+        for p in list.split(':').filter(|p| !p.is_empty()) {
+            let st = std::process::Command::new(&exe)
+                .arg("--replay")
+                .arg(p)
+                .arg("--replay-child")
+                .env("VERIF_ROOT", root)
+                .stdout(std::process::Stdio::null())
+                .status();
+            match st.map(|s| s.code()) {
+                Ok(Some(0)) => {}
+                Ok(Some(2)) => aborted.push(format!("fuzz replay {p} could not be evaluated")),
+                _ => extra_violations.push(PathBuf::from(p)),
+            }
+        }
+    }
+    let fuzz_stats: Value = std::env::var("VERIF_FUZZ_STATS")
+        .ok()
+        .and_then(|s| serde_json::from_str(&s).ok())
+        .unwrap_or(Value::Null);
+    let fuzz_runs = fuzz_stats.get("runs").and_then(|v| v.as_u64()).unwrap_or(0);
+    evaluations += fuzz_runs;
+
     // ---------------- report
     let mut exit = 0;
+    for p in &extra_violations {
+        println!("FAIL {} found by the coverage-guided campaign, confirmed by replay", prop.id);
+        println!("VIOLATION property={} replay={}", prop.id, p.display());
+        exit = 1;
+    }
     let mut seen_sigs: BTreeSet<String> = BTreeSet::new();
     let replays = root.join("replays");
     let _ = std::fs::create_dir_all(&replays);
@@ -1182,11 +1213,13 @@ fn parent_main(prop: &Property, args: &Args, root: &Path, known: &[KnownEntry], 
             "per_subcheck": per_sub,
             "known_finding_hits": known_hits.iter().map(|(k, (n, _))| (k.clone(), json!(n))).collect::<BTreeMap<_, _>>(),
             "violations": violation_list,
+            "fuzz": fuzz_stats,
+            "fuzz_violations": extra_violations,
             "exhaustive": false,
         },
         "assumptions": prop.assumptions,
         "wall_s": wall,
-        "violations": failures.len().min(seen_sigs.len()),
+        "violations": seen_sigs.len() + extra_violations.len(),
     });
     let evdir = root.join("evidence");
     let _ = std::fs::create_dir_all(&evdir);
@@ -1216,4 +1249,45 @@ fn parent_main(prop: &Property, args: &Args, root: &Path, known: &[KnownEntry], 
     }
     let _ = std::fs::remove_dir_all(&work);
     exit
+}
+
+// ------------------------------------------------------------------------------------------------
+// coverage-guided fuzzing support (libFuzzer targets under /verif/fuzz call this)
+
+/// Evaluate one decoded case inside a libFuzzer target with the same oracle and the same
+/// known-finding filter as the proptest tiers. On a failure that is not a known finding the case
+/// is written to `$VERIF_ROOT/replays/<id>-<sub>-<hash>.json` (the normal replay format) and the
+/// process panics, so libFuzzer stops and keeps the input as a crash artifact.
+pub fn fuzz_one<C: Serialize>(property: &str, sub: &str, case: &C, check: impl Fn(&C, &mut Obs)) {
+    use std::sync::OnceLock;
+    static KNOWN: OnceLock<Vec<KnownEntry>> = OnceLock::new();
+    static HOOK: OnceLock<()> = OnceLock::new();
+    let root = verif_root();
+    let known = KNOWN.get_or_init(|| load_known(&root));
+    HOOK.get_or_init(install_panic_hook);
+    let mut obs = Obs::default();
+    if let Err(m) = guard(|| check(case, &mut obs)) {
+        let loc = m.rsplit(" @ ").next().unwrap_or("").to_string();
+        obs.fail(format!("panic:uncaught:{loc}"), format!("uncaught panic: {m}"));
+    }
+    let unknown: Vec<&Fail> = obs
+        .fails
+        .iter()
+        .filter(|f| !is_known(known, property, &f.sig))
+        .collect();
+    if let Some(f) = unknown.first() {
+        let case_v = serde_json::to_value(case).unwrap_or(Value::Null);
+        let body = json!({
+            "property": property, "sub": sub, "signature": f.sig, "message": f.msg,
+            "seed": 0, "tier": "thorough", "shrunk": false, "found_by": "libFuzzer", "case": case_v,
+        });
+        let h = fnv64(serde_json::to_string(&case_v).unwrap_or_default().as_bytes());
+        let dir = root.join("replays");
+        let _ = std::fs::create_dir_all(&dir);
+        let path = dir.join(format!("{property}-{sub}-{h:016x}.json"));
+        let _ = std::fs::write(&path, serde_json::to_string_pretty(&body).unwrap_or_default());
+        let _ = std::panic::take_hook();
+        eprintln!("FUZZ-FAIL property={property} sub={sub} sig={} replay={}", f.sig, path.display());
+        std::process::abort();
+    }
 }
